@@ -105,6 +105,9 @@ type Config struct {
 	NKeys  int    `json:"nkeys"`
 	Stride int    `json:"stride"` // key i is the integer Base + i*Stride (Stride == Shards makes every key collide under modulo routing)
 	Base   int    `json:"base,omitempty"`
+	// TypeMix (interface{}-keyed lockers): keys 3j, 3j+1, 3j+2 are the same number as int, int64 and uint32 - three
+	// different keys of an interface{}-keyed locker
+	TypeMix bool `json:"type_mix,omitempty"`
 }
 
 func (c Config) valid() bool {
@@ -122,11 +125,11 @@ func (c Config) build() locker {
 	sconv := func(k int) string { return fmt.Sprintf("k%d", c.Base+k*c.Stride) }
 	switch c.Type {
 	case "KeyLocker":
-		return &strideAny{anyLocker{l: keylock.NewKeyLocker(), str: c.StrKey}, c.Stride, c.Base}
+		return &strideAny{anyLocker{l: keylock.NewKeyLocker(), str: c.StrKey}, c.Stride, c.Base, c.TypeMix}
 	case "KeyLockerGrp":
-		return &strideAny{anyLocker{l: keylock.NewKeyLockeGrp(opt), str: c.StrKey}, c.Stride, c.Base}
+		return &strideAny{anyLocker{l: keylock.NewKeyLockeGrp(opt), str: c.StrKey}, c.Stride, c.Base, c.TypeMix}
 	case "KeyLockerGrpX":
-		return &strideAny{anyLocker{l: keylock.NewXHashKeyLockeGrp(opt), str: c.StrKey}, c.Stride, c.Base}
+		return &strideAny{anyLocker{l: keylock.NewXHashKeyLockeGrp(opt), str: c.StrKey}, c.Stride, c.Base, c.TypeMix}
 	case "TKeyLocker":
 		if c.StrKey {
 			return &tLocker[string]{l: keylock.NewTKeyLocker[string](), conv: sconv}
@@ -148,13 +151,38 @@ func (c Config) build() locker {
 type strideAny struct {
 	anyLocker
 	stride, base int
+	typeMix      bool
+}
+
+func (s *strideAny) keyOf(k int) interface{} {
+	if !s.typeMix || s.str {
+		return s.anyLocker.key(s.base + k*s.stride)
+	}
+	v := s.base + (k/3)*s.stride
+	switch k % 3 {
+	case 1:
+		return int64(v)
+	case 2:
+		return uint32(v)
+	}
+	return v
 }
 
 func (s *strideAny) lock(keys []int, write, multi bool) {
-	s.anyLocker.lock([]int{s.base + keys[0]*s.stride}, write, multi)
+	k := s.keyOf(keys[0])
+	if write {
+		s.l.Lock(k)
+	} else {
+		s.l.RLock(k)
+	}
 }
 func (s *strideAny) unlock(keys []int, write, multi bool) {
-	s.anyLocker.unlock([]int{s.base + keys[0]*s.stride}, write, multi)
+	k := s.keyOf(keys[0])
+	if write {
+		s.l.Unlock(k)
+	} else {
+		s.l.RUnlock(k)
+	}
 }
 
 func genConfig(t *rapid.T) Config {
@@ -172,6 +200,7 @@ func genConfig(t *rapid.T) Config {
 	c.Stride = rapid.SampledFrom([]int{1, 1, int(c.Shards), 5}).Draw(t, "stride")
 	// keys need not start at 0: with a base near the shard count the keys reach the highest shard indexes
 	c.Base = rapid.SampledFrom([]int{0, 0, 30, 57, 1000}).Draw(t, "base")
+	c.TypeMix = !isMultiType(c.Type) && !c.StrKey && rapid.IntRange(0, 2).Draw(t, "typemix") == 0
 	return c
 }
 
